@@ -23,6 +23,23 @@ READS = {"dict": DICT_READ, "list": LIST_READ}
 UNORDERED = {"iter", "keys", "values", "items"}  # dict results compared as multisets
 
 
+ARITY = {
+    "dict": {"setitem": (2, 2), "delitem": (1, 1), "pop": (1, 2), "popitem": (0, 0), "clear": (0, 0),
+             "update": (0, 1), "setdefault": (1, 2), "reset": (1, 1), "getitem": (1, 1),
+             "get": (1, 2), "contains": (1, 1), "eq": (1, 1), "ne": (1, 1)},
+    "list": {"setitem": (2, 2), "delitem": (1, 1), "insert": (2, 2), "append": (1, 1),
+             "extend": (1, 1), "iadd": (1, 1), "remove": (1, 1), "pop": (0, 1), "reverse": (0, 0),
+             "clear": (0, 0), "reset": (1, 1), "getitem": (1, 1), "contains": (1, 1),
+             "index": (1, 3), "count": (1, 1), "eq": (1, 1), "ne": (1, 1), "lt": (1, 1),
+             "le": (1, 1), "gt": (1, 1), "ge": (1, 1)},
+}
+
+
+def arity_ok(kind, m, a):
+    lo, hi = ARITY[kind].get(m, (0, 0))
+    return lo <= len(a) <= hi
+
+
 def is_mutator(kind, m):
     return m in MUTATORS[kind]
 
